@@ -69,7 +69,7 @@ def run(ctx):
                     "stdin_hex": hx(data), "status": st, "stderr": err.decode(errors="replace")[-300:]},
                     summary=f"{name} started with an unrelated terminated child process: captive child answered everything then "
                             f"{'exited ' + end[1] if end[0] == 'exit' else 'died of signal ' + end[1]}; wrapper status {st}")
-        for c in (0, 1, 3, 255):
+        for c in (0, 1, 3, 129, 137, 143, 147, 192, 255):
             full = [ctx.bin(argv[0])] + argv[1:] + [sys.executable, CHILD, "afterall", "exit", str(c)]
             st, out, err = pvlib.run_tool(full, data, env=pvlib.san_env(), timeout=20)
             ctx.count("child-exit-code", 1, [(name, c)])
